@@ -707,17 +707,21 @@ example : (do
 
   C08's tree round trips know no PI / DOCTYPE leaves; its events-level theorem
   `html_roundtrip_prolog_partial` does, under two hypotheses: no `>` inside a PI (`piSafe`) and a
-  DOCTYPE literal that the html-mode reader reads back whole (`HtmlOkP` for DOCTYPE events).  The
-  first is **established by the repaired filter** (a PI holding `>` is dropped: C06-pi-markup);
-  the second is asked of the DOCTYPE leaves that the filter keeps (`DtOkForest`, stated through
-  C08's own predicate; the filter guarantees that no kept DOCTYPE holds a `>`, which is what
-  html.parser needs — C06-doctype-markup).  `TokSafeP` is `TokSafe` except that PI and DOCTYPE
-  tokens may occur (the property forbids comments, not these).  `_partial`: HTML method only,
-  `strip_whitespace=False`, no doctype option, no XML declaration / namespace leaves. -/
+  DOCTYPE literal that passes `dtScan false` (no `>` and every quote closed).  The first is
+  **established by the repaired filter** (a PI holding `>` is dropped: C06-pi-markup).  The
+  second is stricter than what an HTML parser needs: html.parser, the HTML5 tokenizer and C08's
+  html-mode reader end a DOCTYPE at the first `>`, quoted or not, so a literal without `>` is read
+  back whole whatever its quotes.  `Lemmas/SanReaderDoctype.lean` re-proves the events-level round
+  trip under that weaker hypothesis (`html_roundtrip_prolog_nogt`), and "no `>`" is **established by
+  the repaired filter** too (C06-doctype-markup, `no_gt_in_declarations`).  Since wave 4 the theorem
+  therefore has NO hypothesis on the PI / DOCTYPE leaves of the input (`DtOkForest` is gone).
+  `TokSafeP` is `TokSafe` except that PI and DOCTYPE tokens may occur (the property forbids
+  comments, not these).  `_partial` (what is still outside): HTML method only (XHTML:
+  `xhtml_reparse_prolog_safe_partial`), `strip_whitespace=False`, no doctype option, no XML
+  declaration / namespace leaves, text leaves not Markup. -/
 
 theorem html_reparse_prolog_safe_partial {cfg : Cfg} (hm : CfgMarkupOk cfg) (hcss : CssNamesPlain cfg)
-    (cache dropd : Bool) (ns : List Node) (hok : okList ns = true) (hpl : prologForest ns = true)
-    (hdt : DtOkForest ns) :
+    (cache dropd : Bool) (ns : List Node) (hok : okList ns = true) (hpl : prologForest ns = true) :
     ∃ p toks, sanitize cfg (flattenList ns) = .ok (flattenList p) ∧
       (Genshi.Output.render .html { strip := false, cache := cache, doctype := none, dropXmlDecl := dropd }
           (flattenList p)).bind (Genshi.Reader.tokens false) = some toks ∧
@@ -728,7 +732,7 @@ theorem html_reparse_prolog_safe_partial {cfg : Cfg} (hm : CfgMarkupOk cfg) (hcs
     cases hp : pruneList cfg ns with
     | ok p => exact ⟨p, rfl⟩
     | error e => rw [h1, hp] at ho; cases ho
-  have hgood := pruneList_goodP cfg ns p hpl hdt hp
+  have hgood := pruneList_goodP cfg ns p hpl hp
   obtain ⟨⟨h1, h2⟩, h3⟩ := forestF_good hm p hgood
   obtain ⟨hokP, hraw⟩ := okAllP_of_good hm (Genshi.Output.forestF p) h3 false
   refine ⟨p, Genshi.Reader.htmlExpectedP (Genshi.Output.forestF p), ?_, ?_,
@@ -746,22 +750,24 @@ theorem html_reparse_prolog_safe_partial {cfg : Cfg} (hm : CfgMarkupOk cfg) (hcs
     rw [hc]
     have hf := Genshi.Output.filtered_forest .html false dropd p h1 h2
     simp only [Genshi.Output.render, Genshi.Output.chunks, hf, Option.map_some, Option.bind_some]
-    refine Genshi.Props.C08.html_roundtrip_prolog_partial _ _ _ hokP ?_
-    have := (Genshi.Reader.html_streamP ({} : Genshi.Output.Opts) (Genshi.Output.forestF p) {} false {} rfl rfl hokP).2
+    refine Genshi.Reader.html_roundtrip_prolog_nogt _ _ _ hokP ?_
+    have := (Genshi.Reader.html_streamG ({} : Genshi.Output.Opts) (Genshi.Output.forestF p) {} false {} rfl rfl hokP).2
     rw [this]; exact hraw
 
--- non-vacuity: a DOCTYPE, a kept PI, a DOCTYPE holding `>` (dropped) and a PI holding `>` (dropped)
-example : prologForest [.leaf (.doctype ['h', 't', 'm', 'l'] none (some ['x', '.', 'd', 't', 'd'])),
+-- non-vacuity: a DOCTYPE whose quotes are NOT balanced (name `a"b`: outside C08's `dtScan false`, inside
+-- this theorem), a kept PI, a DOCTYPE holding `>` (dropped) and a PI holding `>` (dropped)
+example : prologForest [.leaf (.doctype ['a', '"', 'b'] none (some ['x', '.', 'd', 't', 'd'])),
     .elem divTag [] [.leaf (.pi ['p', 'h', 'p'] ['e', 'c', 'h', 'o']), .leaf (.text ['a', '<'] false),
       .leaf (.pi ['x'] ['a', '>', '<', 's'])],
-    .leaf (.doctype ['h', 't', 'm', 'l'] none (some ['x', '\'', '>', '<', 's', '>']))] = true ∧
-  DtOkForest [.leaf (.doctype ['h', 't', 'm', 'l'] none (some ['x', '.', 'd', 't', 'd'])),
-    .elem divTag [] [.leaf (.pi ['p', 'h', 'p'] ['e', 'c', 'h', 'o'])],
-    .leaf (.doctype ['h', 't', 'm', 'l'] none (some ['x', '\'', '>', '<', 's', '>']))] := by
-  refine ⟨by decide, ?_, ?_, ?_, trivial⟩
-  · intro _ hd; exact ⟨rfl, fun _ => by decide⟩
-  · simp [DtOkTree, DtOkForest]
-  · intro h; exact absurd h (by decide)
+    .leaf (.doctype ['h', 't', 'm', 'l'] none (some ['x', '\'', '>', '<', 's', '>']))] = true := by decide
+example : Genshi.Reader.dtScan false none (Genshi.Reader.doctypeContent ['a', '"', 'b'] none none) = false := by decide
+example : (do
+    let o ← (sanitize Cfg.default [.doctype ['a', '"', 'b'] none none, .start divTag [],
+      .text ['"', 'x'] false, .end_ divTag]).toOption
+    let txt ← Genshi.Output.render .html { strip := false, cache := true, doctype := none, dropXmlDecl := true } o
+    Genshi.Reader.tokens false txt) =
+    some [.doctype ['a', '"', 'b'], .text ['\n'], .start ['d', 'i', 'v'] [] false, .text ['"', 'x'], .end_ ['d', 'i', 'v']] := by
+  decide +kernel
 example : (do
     let o ← (sanitize Cfg.default [.doctype ['h', 't', 'm', 'l'] none (some ['x', '.', 'd', 't', 'd']), .start divTag [],
       .pi ['p', 'h', 'p'] ['e', 'c', 'h', 'o'], .text ['a', '<'] false, .pi ['x'] ['a', '>', '<', 's'], .end_ divTag,
